@@ -2,7 +2,7 @@
    collide (every theorem is for an ARBITRARY hash function [hash64]).
    Theorems only; each is closed by [exact] of a lemma proved elsewhere. *)
 From Coq Require Import List NArith ZArith Bool Permutation.
-From Stevia Require Import Base.Res Hash.Impl Hash.Spec Hash.ZSet Hash.Mem Hash.Inv Hash.Refine Hash.HashProps Hash.SpecLaws.
+From Stevia Require Import Base.Res Hash.Impl Hash.Spec Hash.ZSet Hash.Mem Hash.Inv Hash.Refine Hash.HashProps Hash.SpecLaws Hash.IterLaws.
 Import ListNotations.
 Open Scope N_scope.
 
@@ -135,6 +135,21 @@ Theorem C02_insert_then_contains : forall (hash64 : Z -> N) s v, hinv hash64 s -
     (b = false -> s' = s).
 Proof. exact hinsert_then_contains. Qed.
 Print Assumptions C02_insert_then_contains.
+
+(* iteration after a mutation: the iterator of the state after an accepted insert yields the old members plus exactly
+   the new value, after a successful remove the old members minus exactly that value - each once (as multisets: the
+   order is the bucket order and is not part of the contract), for an arbitrary hash function *)
+Theorem C02_iteration_after_insert : forall (hash64 : Z -> N) s v s', hinv hash64 s ->
+  hinsert hash64 s v = Ok (s', true) ->
+  exists l l', hiter s = Ok l /\ hiter s' = Ok l' /\ NoDup l' /\ Permutation l' (v :: l) /\ ~ In v l.
+Proof. exact hiter_after_insert. Qed.
+Print Assumptions C02_iteration_after_insert.
+
+Theorem C02_iteration_after_remove : forall (hash64 : Z -> N) s v s', hinv hash64 s ->
+  hremove hash64 s v = Ok (s', true) ->
+  exists l l', hiter s = Ok l /\ hiter s' = Ok l' /\ NoDup l' /\ Permutation l (v :: l') /\ ~ In v l'.
+Proof. exact hiter_after_remove. Qed.
+Print Assumptions C02_iteration_after_remove.
 
 Example C02_zset_laws_example :
   let m := [3; 5; 9]%Z in
